@@ -118,10 +118,17 @@ Theorem C15_generated_block_accepted_partial : forall s tip g pe v x,
   ve_gen_lookup_ok v = true -> ve_generators v <> [] ->
   nth_error (ve_generators v) (N.to_nat (slot_of v (ge_now g) mod N.of_nat (length (ve_generators v)))) = Some (ge_generator g) ->
   ge_mhp g = ve_node_mhp v ->
-  ve_contradicting v = false -> ve_agg_ok v = true -> ve_sig_ok v = true ->
+  ve_contradicting v = false -> agg_commit_ok (b_header (forge_block tip g)) v = true -> ve_sig_ok v = true ->
   xe_abi_init_ok x = true -> xe_abi_verify_assets_ok x = true -> xe_bft_ok x = true -> xe_abi_before_ok x = true ->
   (forall p, In p (xe_tx x) -> p = (true, true)) -> xe_abi_after_ok x = true ->
   (xe_params_changed x = true -> xe_set_params_ok x = true) ->
   xe_post_vhash x = ge_vhash g -> xe_nevents x <= max_events -> xe_eventroot x = ge_eventroot g -> xe_abi_commit_ok x = true ->
   receive s (forge_block tip g) pe v x = (Accepted, commit_block s (forge_block tip g) x).
 Proof. exact generated_block_accepted. Qed.
+
+(* the empty aggregate commit at maxHeightCertified (what GetAggregateCommit returns when nothing can be aggregated)
+   discharges the aggregate-commit hypothesis *)
+Theorem C15_empty_aggregate_commit_ok : forall tip g v,
+  b_len (ge_agg_bits g) = 0 -> b_len (ge_agg_sig g) = 0 -> ge_agg_height g = ve_mh_cert v ->
+  agg_commit_ok (b_header (forge_block tip g)) v = true.
+Proof. exact empty_agg_commit_ok. Qed.
